@@ -5,12 +5,12 @@ EXPLANATION = ("Bounded symbolic checking (engine S, REAL mode) of VectorTools.h
                "each routine is compared with its definition (plain loops in the harness): arithmetic results are rational-function identities, order/extremum/set-like results are decided through the comparisons the "
                "compiled code itself makes (every ordering of the elements, ties included, is a separate path); log-domain reductions use axiomatised exp/log (positivity, monotonicity, exp(log x)=x), "
                "their special values (-inf, +inf) are forked as concrete entries next to arbitrary finite reals; out-of-range accesses abort the path (libstdc++ assertions) and are reported.")
-FUNCTIONS = ["operator+,-,*,/ (vector-vector, vector-scalar, scalar-vector) and their compound forms", "VectorTools::{sum,prod,cumSum,cumProd,sumProd,scalar,mean (2),center,kroneckerMult,min,max,whichMax,whichMin,whichMaxAll,whichMinAll,range,order,abs,median,"
+FUNCTIONS = ["VectorTools::{shannon,shannonDiscrete,miDiscrete}", "operator+,-,*,/ (vector-vector, vector-scalar, scalar-vector) and their compound forms", "VectorTools::{sum,prod,cumSum,cumProd,sumProd,scalar,mean (2),center,kroneckerMult,min,max,whichMax,whichMin,whichMaxAll,whichMinAll,range,order,abs,median,"
              "unique,isUnique,cov,var,sd,cor,contains,containsAll,vectorUnion,vectorIntersection,diff,haveSameElements,extend,which,whichAll,rep,append,prepend,seq,logSumExp (2),logMeanExp,sumExp (2),logNorm}",
              "NumTools::logsum", "StatTools::computeFdr"]
 BOUNDS = ("vector lengths 0..3 (quick) / 0..4 (thorough; set-like helpers: 0..2 quick, 0..3 thorough), every pair of equal or unequal lengths; all real elements (ties and negative values included); weights > 0; seq: end points in [-2,2], step 1 or 0.5; "
           "log-domain special values: each entry -inf, +inf or an arbitrary finite real")
-OUTSIDE = ["lengths above 4", "the integer instantiations of the templates", "entropy and mutual information (logarithms of symbolic frequencies)", "IEEE rounding (REAL mode is exact arithmetic): 'stays finite where the naive formula overflows' is shown "
+OUTSIDE = ["lengths above 4", "the integer instantiations of the templates", "the kernel-density (continuous) entropy and mutual information estimators", "IEEE rounding (REAL mode is exact arithmetic): 'stays finite where the naive formula overflows' is shown "
            "structurally (only differences to the maximum are exponentiated: exp arguments <= 0 on every path), not by floating-point evaluation", "breaks/nclassScott/paste/print helpers"]
 ASSUMPTIONS = BASE_ASSUMPTIONS
 LEVEL_TEXT = ("Bounded symbolic checking: for every length configuration within the bound every feasible path (ordering of the elements) of the compiled template code is explored with symbolic elements and the result is "
@@ -24,6 +24,7 @@ JOBS = [
     Job("set-like", "C07.cpp", ["HLO=4", "HHI=4", "LMAX=2"], thorough_defines=["HLO=4", "HHI=4", "LMAX=3"], budget_s=300, thorough_budget_s=3000, desc="contains/containsAll/union/intersection/difference/same-elements/extend/which/rep/append"),
     Job("seq-fdr", "C07.cpp", ["HLO=5", "HHI=5", "LMAX=3"], budget_s=200, desc="sequence generation"),
     Job("fdr", "C07.cpp", ["HLO=8", "HHI=8", "LMAX=3"], thorough_defines=["HLO=8", "HHI=8", "LMAX=4"], budget_s=200, thorough_budget_s=1000, desc="false-discovery-rate adjustment r = p.n/rank"),
+    Job("entropy-mutual-information", "C07.cpp", ["HLO=9", "HHI=9", "LMAX=3"], thorough_defines=["HLO=9", "HHI=9", "LMAX=4"], env={"SYM_LOG_ATOMS": "1"}, budget_s=300, thorough_budget_s=2000, desc="shannon (frequencies, any base), shannonDiscrete and miDiscrete (samples of length 1..3 (4), every equality pattern): definitions through value counts, MI = H(X)+H(Y)-H(X,Y), symmetry, MI(X,X)=H(X), length mismatch refused; logarithms of count ratios are exact atoms and both sides are compared as products of integer powers"),
     Job("log-domain", "C07.cpp", ["HLO=6", "HHI=6", "LMAX=3"], thorough_defines=["HLO=6", "HHI=6", "LMAX=4"], budget_s=300, thorough_budget_s=3000, spurious_possible=True, desc="log-sum-exp family: bounds, exp-view equals the sum, shift-equivariance, weighted forms, pairwise log-sum (axiomatised exp/log)"),
     Job("log-special-values", "C07.cpp", ["HLO=7", "HHI=7", "LMAX=3"], thorough_defines=["HLO=7", "HHI=7", "LMAX=4"], budget_s=300, thorough_budget_s=3000, desc="log-domain reductions with -inf/+inf entries: never NaN, log-zeros give log-zero, finite terms give a finite result"),
 ]
